@@ -112,6 +112,11 @@ func (x *Exec) Run() (err error) {
 				x.warn("waiver %s at %q unused", wv.Kind, wv.Text)
 			}
 		}
+		for _, c := range x.contract.Limits {
+			if !x.cutsDone[c] {
+				panic(unsupported("limit anchor \"" + c.Text + "\" not found (contract-anchor-lost)"))
+			}
+		}
 		for _, ap := range x.contract.Applies {
 			if !x.appliesDone[ap] {
 				panic(unsupported("apply anchor for lemma " + ap.Lemma + " not found (contract-anchor-lost)"))
@@ -341,6 +346,10 @@ func (x *Exec) runBlock(b *ssa.BasicBlock) {
 
 	for _, ins := range b.Instrs {
 		x.curInstr = ins
+		if x.maybeLimit(ins) {
+			x.curInstr = nil
+			return // the rest of this path is outside the contract's scope
+		}
 		x.maybeApply(ins)
 		x.maybeAssert(ins)
 		x.maybeCut(ins)
@@ -412,6 +421,39 @@ func (x *Exec) maybeCut(ins ssa.Instruction) {
 		o := x.oblige(cid+"/cover", "cover", npc, tFalse, "cut assumption satisfiable", pos)
 		o.MustFail = true
 	}
+}
+
+// maybeLimit implements "limit before <text>": the contract does not speak about executions that
+// reach this point. That is sound only if every ensures clause is vacuous there, so each clause
+// must be an implication whose guard is proved false at the anchor; exploration of the path stops.
+func (x *Exec) maybeLimit(ins ssa.Instruction) bool {
+	if x.contract == nil || len(x.contract.Limits) == 0 {
+		return false
+	}
+	pos := ins.Pos()
+	if !pos.IsValid() {
+		return false
+	}
+	text := x.lineText(pos)
+	for k, c := range x.contract.Limits {
+		if !strings.Contains(text, c.Text) || x.cutLine(c) != x.w.fset.Position(pos).Line {
+			continue
+		}
+		x.cutsDone[c] = true
+		env := x.entryEnv()
+		for n, e := range x.contract.Ensures {
+			imp, ok := e.E.(*EBin)
+			if !ok || imp.Op != "==>" {
+				x.oblige(fmt.Sprintf("limit/%d/ensures/%d", k+1, n+1), "limit", x.curPC, tFalse, "ensures clause is not an implication; it cannot be vacuous beyond the limit: "+e.Text, pos)
+				continue
+			}
+			g := x.ev.boolOf(x.evalIn(&Clause{E: imp.L, Text: e.Text, Line: e.Line}, env))
+			x.oblige(fmt.Sprintf("limit/%d/ensures/%d", k+1, n+1), "limit", x.curPC, mkNot(g), "guard false beyond the limit: "+e.Text, pos)
+		}
+		x.limited = true
+		return true
+	}
+	return false
 }
 
 // applyLemma proves the hypotheses of a lemma instance at the current point and assumes its conclusion.
